@@ -29,7 +29,7 @@ var confirmedCounts = map[string]map[string][2]int{ // rule -> prop -> {default,
 	"R20": {"C03": {2, 2}},
 	"R21": {"C16": {0, 4}},
 	"R22": {"C16": {0, 19}},
-	"R23": {"C14": {0, 20}, "C16": {0, 20}},
+	"R23": {"C14": {0, 22}, "C16": {0, 20}},
 	"R24": {"C05": {4, 4}, "C06": {5, 5}, "C13": {2, 2}, "C15": {1, 3}},
 	"R25": {"C05": {10, 10}, "C06": {24, 24}, "C09": {17, 17}, "C13": {10, 10}, "C15": {1, 6}},
 	"R26": {"C02": {1, 1}, "C03": {4, 4}, "C04": {3, 3}, "C05": {7, 7}, "C06": {6, 6}, "C13": {2, 2}},
